@@ -320,7 +320,7 @@ type c2gen struct{ r *rand.Rand }
 
 var c2topKeys = []string{"type", "content", "room_id", "sender", "origin", "depth", "a", "b", "c", "hashes", "prev_events",
 	"origin_server_ts", "é", "日本", "😀k", "a.b", "a*b", "k?", "#", "@x", "<tag>", "&amp", "Signatures", "Unsigned", "SIGNATURES",
-	"unſigned", "ſignatures", "signature", "unsigned2", "sig natures", " ", "", "~", string(rune(0x2028)), string(rune(0x212a)), "0", "-", "x|y", "a/b", "zz", "Z"}
+	"unſigned", "ſignatures", "signature", "unsigned2", "sig natures", "signatures.x", "unsigned.age", "signatures|x", "*signatures", "signatures#", " ", "", "~", string(rune(0x2028)), string(rune(0x212a)), "0", "-", "x|y", "a/b", "zz", "Z"}
 
 // keys that may also occur below the top level (there the two special names are ordinary members)
 var c2nestedKeys = append([]string{"signatures", "unsigned"}, c2topKeys...)
